@@ -73,7 +73,7 @@ chk('C20',
     'K1: the option store, one cell per option: value over a 39-value vocabulary (all documented forms + near misses), a second option (valid / unknown / invalid), raising blocks, nested blocks and inner set_options: '
     'invalid => rejected with get_options() identical (validate-all-then-update), otherwise exactly the named options change and are restored exactly on block exit, accept/reject == documented value grammar. '
     'P1: an option passed to one edit never changes the defaults (also on raise), per-call result == per-block result, next call unaffected, symbolic slice bounds. P2: per-call / per-block options of a QUERY (own_src docstr) in all orders. '
-    'P3: two real threads, each editing its own tree under its own defaults / blocks / per-call options (incl. a failing edit and a raising block), with the SCHEDULE symbolic: which thread is preempted and after how many executed source lines of pfst code (every one of the ~5,000 + ~7,000 line boundaries), the other then runs to completion; each thread\'s observations equal its solo run.',
+    'P4: option values that are objects (FST operator node, list) reused across calls / blocks / thread defaults are only read. P3: two real threads, each editing its own tree under its own defaults / blocks / per-call options (incl. a failing edit and a raising block), with the SCHEDULE symbolic: which thread is preempted and after how many executed source lines of pfst code (every one of the ~5,000 + ~7,000 line boundaries), the other then runs to completion; each thread\'s observations equal its solo run.',
     'Threads: one preemption per run at source-line granularity, two threads (sys.settrace hook places the preemption; pfst code in the worker threads runs concretely, only the schedule is symbolic); more preemptions, bytecode-level races and free-threaded builds are outside. One defect fixed (trivia="" accepted).',
     'symbolic execution of check_options/set_options/options()/get_option with symbolic value and nesting choices; reference = documented grammar',
     'DESIGN.md section 4 C20')
@@ -96,8 +96,8 @@ chk('C07',
 chk('C08',
     'K1: repr_str_multiline over strings of <= 4 symbolic characters from the alphabet that drives its quoting/escaping decisions, decoded by an independent triple-quote decoder == input. '
     'T1: put_line_comment(text) / get_line_comment() read back for EVERY code point >= U+0080 at marked positions of the text (solver found the documented trailing-whitespace strip via U+3000). '
-    'P1: cut-and-put-back and replace-by-own copy / AST / source with symbolic indices, repeated twice: CPython-parsed structure equals the original. P2: 25 nasty docstring texts x every def/class/module: read back + CPython sees the same docstring. P3: own_src() of every node parses to that node.',
-    'Bounds: listed carriers/texts/alphabet.',
+    'P1: cut-and-put-back and replace-by-own copy / AST / source with symbolic indices, repeated twice: CPython-parsed structure equals the original. P2: 25 nasty docstring texts x every def/class/module: read back + CPython sees the same docstring. P3: own_src() of every node parses to that node, its three docstr variants asked in all 6 orders equal fresh trees.',
+    'Bounds: listed carriers/texts/alphabet. Known finding: cut-and-put-back impossible after a norm collapse.',
     'symbolic execution of the quoting kernel and comment accessor over symbolic characters; round trips with symbolic indices judged by CPython',
     'DESIGN.md section 4 C08')
 chk('C09',
@@ -108,21 +108,21 @@ chk('C09',
     'finite-choice exploration through the symbolic driver with CPython parse of the pure-AST substitution as oracle; Unicode re-lettering for positions',
     'DESIGN.md section 4 C09')
 chk('C10',
-    'P1: put_src(text, ln, col, end_ln, end_col, "reparse") on 9 carriers x 12 replacement texts with the rectangle SYMBOLIC over Z^4 (clipped, negative, reversed, on/off node boundaries, spanning statements): '
+    'P1: put_src(text, ln, col, end_ln, end_col, "reparse") on 13 carriers x 17 replacement texts (incl. header-changing keywords, added else clauses, comments that cut a statement\'s tail) with the rectangle SYMBOLIC over Z^4 (clipped, negative, reversed, on/off node boundaries, spanning statements): '
     'S = independent splice; if CPython parses S the call must return, root.src == S, tree == ast.parse(S) incl. every position, links consistent, returned end position right; otherwise it must raise with source, tree and registry unchanged. '
-    'P2: replace(code, raw=True) on every node x 10 codes. One large defect family fixed (commit 1fb1d70: 534 of 115k concrete combinations disagreed before).',
+    'P2: replace(code, raw=True) on every node x 10 codes. P3: roots that are not modules (expression, statement, pattern): valid for the root\'s kind or nothing changes. Three defects fixed (1fb1d70: 534 of 115k concrete combinations disagreed before; 41de7ff; 4ce0644); root-kind change on invalid source listed as known finding.',
     'Bounds: listed carriers/texts. Outside: reparse() with changed parse parameters.',
     'symbolic execution of put_src/raw reparse with a symbolic rectangle; independent splice + CPython parse as oracle',
     'DESIGN.md section 4 C10')
 chk('C13',
-    'P1: 4 carriers x scripts of two pure-AST mutations (18 kinds: new node, node from another tree, node POPPED from another tree, statements moved across list fields, delete/insert/swap/duplicate/move statements, rename, constant/operator change, constant changed to an equal value of another type, sibling swap) at symbolic node ordinals, 1-2 mark/reconcile rounds: '
-    'result == CPython parse of its source incl. positions, structurally equal to the edited AST, unchanged source for the empty script, untouched top-level statements keep their exact text incl. comments. Finite script space, solver-enumerated. Four defects fixed (8f3f48e, 0f56bb8, f4b4ec8, f42a72e).',
+    'P1: 4 carriers x scripts of two pure-AST mutations (21 kinds: new node, call-header edits whose local replay is refused, every primitive field, node from another tree, node POPPED from another tree, statements moved across list fields, delete/insert/swap/duplicate/move statements, rename, constant/operator change, constant changed to an equal value of another type, sibling swap) at symbolic node ordinals, 1-2 mark/reconcile rounds: '
+    'result == CPython parse of its source incl. positions, structurally equal to the edited AST, unchanged source for the empty script, untouched top-level statements keep their exact text incl. comments, no comment appears more often than before (known finding: duplicated line comment of a shifted element). Finite script space, solver-enumerated. Four defects fixed (8f3f48e, 0f56bb8, f4b4ec8, f42a72e).',
     'Bounds: listed carriers and mutation kinds, 2 mutations per round.',
     'finite-choice exploration of mutation scripts through the symbolic driver; oracle = CPython parse + dump equality with the edited AST',
     'DESIGN.md section 4 C13')
 chk('C15',
     'P1: 7 carriers x 7 walk settings (+ walks started at non-root nodes, so the walk root itself is mutated) with a SYMBOLIC consumer schedule: at which yield - entry AND leave yields - (k over 0..60) which of 10 actions (replace/remove current node, parent, grand-parent, previous/next sibling, insert before) happens and what is sent back (none/False/True); '
-    'thorough: two events k1 < k2. Every yield alive, in this tree and not seen before on entry (on leave for on=leave) unless re-walked by send(True); termination bound; new children of a replacement walked next; send(True) on a leave yield re-walks the children and yields the node again; no exception; final tree == CPython parse. P2: search() consumer replacing/removing matches.',
+    'thorough: two events k1 < k2. Every yield alive, in this tree and not seen before on entry (on leave for on=leave) unless re-walked by send(True); termination bound; new children of a replacement walked next; send(True) on a leave yield re-walks the children and yields the node again; no exception; every node of the undisturbed walk that follows the mutation and survives is yielded; final tree == CPython parse. P2: search() consumer replacing/removing matches.',
     'Bounds: listed carriers, <= 2 mutation events. Two defects fixed (bc724e9, 74067c0); FST-object re-use after a norm collapse of a BoolOp listed as known findings. Outside: cut / raw edits during a walk (documented unsupported).',
     'symbolic execution of walk() under symbolic mutation schedules (bounded model checking over schedules)',
     'DESIGN.md section 4 C15')
